@@ -1,5 +1,5 @@
 //! unit: u07e
-//! properties: C07 C02
+//! properties: C07 C02 C11
 //! note: a preimage learned after the channel went on chain is used on the commitment that actually confirmed (channelmonitor.rs provide_payment_preimage): whichever of the counterparty's current commitment, the counterparty's previous commitment, our current commitment or our previous commitment spent the funding output, the claim requests for THAT transaction are handed to the claim handler -- once -- and nothing is handed over when no known commitment confirmed
 //! trusted: R15 (deep slice): provide_payment_preimage from the function-local macro claim_htlcs! to the end of the function, verbatim (the macro definition is part of the slice); the bookkeeping of payment_preimages and the search for the confirmed funding spend in front of it are dropped and not claimed
 //! trusted: R5: the monitor is a skeleton {counterparty_commitment_txn_on_chain, broadcasted_holder_revokable_script, onchain_tx_handler, best_block, destination_script}; funding_spent (`get_confirmed_funding_scope!(self)`, a borrow of a field) is a separate parameter; get_counterparty_output_claims_for_preimage / get_broadcasted_holder_claims return uninterpreted request lists identified by their arguments (their contents: u07c); OnchainTxHandler::update_claims_view_from_requests records what it is given in a ghost log (its own behaviour: u07b); hash maps answer from ghost maps
@@ -39,6 +39,7 @@ impl OnchainTxHandler {
     #[verifier::external_body] pub fn update_claims_view_from_requests(&mut self, requests: Requests, conf_height: u32, cur_height: u32, broadcaster: &Broadcaster, conf_target: ConfirmationTarget, destination_script: &ScriptBuf, fee_estimator: &FeeEst, logger: &LoggerStub)
         ensures final(self).given@ == old(self).given@.push(Given { requests: requests.of, conf_height, cur_height }) { unimplemented!() }
 }
+//@const lightning/src/chain/channelmonitor.rs ANTI_REORG_DELAY
 pub struct BestBlock { pub height: u32 }
 pub struct Extra {}
 pub struct Monitor { pub counterparty_commitment_txn_on_chain: NumberMap, pub broadcasted_holder_revokable_script: Option<Script>, pub onchain_tx_handler: OnchainTxHandler, pub best_block: BestBlock, pub destination_script: ScriptBuf }
@@ -73,6 +74,22 @@ impl Monitor {
     return; } } if let Some(txid) = funding_spent.prev_counterparty_commitment_txid {
 //@with
     } return; } if let Some(txid) = funding_spent.prev_counterparty_commitment_txid {
+//@end
+// (finding F12) the height since which the outputs claimed with a late preimage exist, when the funding spend is already final: the spend has at least ANTI_REORG_DELAY confirmations, so it confirmed at most that many blocks (less one) below the tip; it is never left unset (which would record the TIP as the creation height of the claimed outputs, and a reorg of the tip alone would then drop the claim)
+//@extract lightning/src/chain/channelmonitor.rs :: impl ChannelMonitorImpl :: fn provide_payment_preimage
+//@slice R15
+    let confirmed_spend_info = self.funding_spend_confirmed .map(|txid| $body:seq) .or_else(
+//@with
+    fn where_a_final_funding_spend_is_taken_to_have_confirmed(&self, txid: Txid) -> (Txid, Option<u32>) { $body }
+//@ret r
+//@ensures P C11,C07 outputs-claimed-with-a-preimage-learned-after-the-funding-spend-became-final-are-recorded-as-existing-since-a-height-the-spend-had-certainly-confirmed-by-never-since-the-tip
+    r.0 == txid, r.1 is Some,
+    self.best_block.height >= ANTI_REORG_DELAY - 1 ==> r.1->Some_0 as int <= self.best_block.height - (ANTI_REORG_DELAY - 1),
+    self.best_block.height < ANTI_REORG_DELAY - 1 ==> r.1->Some_0 == 0,
+//@mutant final_spend_recorded_without_a_height
+    (txid, Some(latest_conf_height))
+//@with
+    (txid, None)
 //@end
 }
 }
